@@ -381,11 +381,25 @@ def gen_problem(rng):
     if k < 0.15:
         p["options"] = rng.choice([{"DO_BALANCED_CC": False}, {"DO_DIRECT_OPERATION_TARGETING": True}, {"UTILITY_PRICE": 50.0},
                                    {"DO_VERTICAL_GCC": True}])
-    elif k < 0.27:                                 # an explicit zone tree consistent with the labels' first components
+    elif k < 0.40:                                 # an explicit zone tree consistent with the labels' first components
         tops = sorted({s["zone"].split("/")[0] for s in streams})
-        p["zone_tree"] = dict(name="Site", type="Site", children=[dict(name=t, type="Process Zone", children=[]) for t in tops])
-        for s in streams:
-            s["zone"] = s["zone"].split("/")[0]
+        shape = rng.choice(["typed", "generic_nested", "root_labelled"])
+        if shape == "typed":
+            p["zone_tree"] = dict(name="Site", type="Site", children=[dict(name=t, type="Process Zone", children=[]) for t in tops])
+            for s in streams:
+                s["zone"] = s["zone"].split("/")[0]
+        elif shape == "generic_nested":
+            # generic "Zone" node types at three levels: preparation normalises the types (Site / Process Zone / Unit Operation)
+            p["zone_tree"] = dict(name="Site", type="Zone", children=[
+                dict(name=t, type="Zone", children=[dict(name="U" + t, type="Zone", children=[])]) for t in tops])
+            for s in streams:
+                t = s["zone"].split("/")[0]
+                s["zone"] = f"{t}/U{t}"
+        else:
+            # some streams labelled with the root zone's own name: preparation appends a node per such stream to the tree
+            p["zone_tree"] = dict(name="Site", type="Site", children=[dict(name=t, type="Process Zone", children=[]) for t in tops])
+            for i, s in enumerate(streams):
+                s["zone"] = "Site" if i % 2 == 0 else s["zone"].split("/")[0]
     return p
 
 
